@@ -41,6 +41,22 @@ type bareEnv struct {
 	lastOf map[uint64][2]uint64         // per height: the last round answered
 	shown  map[[2]uint64]uint32         // per round: the highest version handed to the state machine
 	sent   int
+
+	// Controlled main select of the state machine (harness/tools/selxform): the kernel is held at the entry of its
+	// main select (gate) until the harness has applied one event - or, for a BATCH, several - and then polls its
+	// inputs in natural order, or with one preferred case first.
+	gated      bool
+	gate       chan struct{}
+	atGate     bool
+	lastPicked int
+	pref       int // case polled first in the next pass (-1: natural order)
+	batch      int // events still to be applied before the kernel is released
+	dirty      bool                          // the current round's model view changed since the last delivery
+	explicit   *tmeil.StateMachineRoundView  // a specific (stale) view waiting to be delivered
+	sending    bool
+	cancelSend chan struct{}
+	passes     int
+	multiReady int
 }
 
 func (n *node) up() bool {
@@ -89,6 +105,40 @@ func (n *node) startBare() {
 		Watchdog:                          wd,
 		AssertEnv:                         gasserttest.DefaultEnv(),
 	}
+	b.gated = tmstate.VerifSelectCountStatemachine > 0
+	if b.gated {
+		b.gate = make(chan struct{})
+		b.atGate, b.pref, b.sending = false, -1, false
+		ctx := n.ctx
+		tmstate.VerifSetSelectHooks(func(name string, cases int) []int {
+			if !strings.HasPrefix(name, "handleLiveEvent") {
+				return nil
+			}
+			b.atGate = true
+			select {
+			case <-b.gate:
+			case <-ctx.Done():
+			}
+			b.atGate = false
+			order := make([]int, 0, cases)
+			if b.pref >= 0 && b.pref < cases {
+				order = append(order, b.pref)
+			}
+			for i := 0; i < cases; i++ {
+				if i != b.pref {
+					order = append(order, i)
+				}
+			}
+			b.pref = -1
+			return order
+		}, func(name string, i int) {
+			if strings.HasPrefix(name, "handleLiveEvent") {
+				b.lastPicked = i
+			}
+		}, func(name string) bool {
+			return strings.HasPrefix(name, "handleLiveEvent") && ctx.Err() == nil
+		})
+	}
 	sm, err := tmstate.NewStateMachine(wctx, slog.New(capLog{n}), cfg)
 	if err != nil {
 		n.startErr = "error: " + err.Error()
@@ -99,12 +149,20 @@ func (n *node) startBare() {
 }
 
 func (n *node) stopBare() {
+	b := n.bare
+	if b.cancelSend != nil {
+		close(b.cancelSend)
+		b.cancelSend = nil
+	}
 	n.cancel()
 	synctest.Wait()
-	if n.bare.sm != nil {
-		n.bare.sm.Wait()
+	if b.sm != nil {
+		b.sm.Wait()
 	}
-	n.bare.sm = nil
+	b.sm = nil
+	if b.gated {
+		tmstate.VerifSetSelectHooks(nil, nil, nil)
+	}
 }
 
 // view returns the model mirror's view of h/r, creating an empty one.
@@ -184,6 +242,17 @@ func (b *bareEnv) send(s *sys, rv tmeil.StateMachineRoundView) string {
 	if b.sm == nil {
 		return "node-down"
 	}
+	if b.gated {
+		// Delivered when the kernel is released (pump): the current round's view is rebuilt then, a specific view
+		// (of a round or height already left) is kept as it is.
+		if b.cur != nil && (rv.VRV.Height == 0 || (rv.VRV.Height == b.cur.H && rv.VRV.Round == b.cur.R)) {
+			b.dirty = true
+		} else {
+			c := rv
+			b.explicit = &c
+		}
+		return "posted"
+	}
 	s.noteShown(&rv.VRV)
 	if rv.JumpAheadRoundView != nil {
 		s.noteShown(rv.JumpAheadRoundView)
@@ -203,6 +272,90 @@ func (b *bareEnv) send(s *sys, rv tmeil.StateMachineRoundView) string {
 		return "sent"
 	default:
 		return "n/a:state-machine-not-receiving"
+	}
+}
+
+// delivered: bookkeeping at the moment the state machine took a view.
+func (b *bareEnv) delivered(s *sys, rv tmeil.StateMachineRoundView) {
+	s.noteShown(&rv.VRV)
+	if rv.JumpAheadRoundView != nil {
+		s.noteShown(rv.JumpAheadRoundView)
+	}
+	b.sent++
+	b.last = &rv
+	if rv.VRV.Height > 0 {
+		b.shown[[2]uint64{rv.VRV.Height, uint64(rv.VRV.Round)}] = rv.VRV.Version
+	}
+	if b.cur != nil && rv.VRV.Height == b.cur.H && rv.VRV.Round == b.cur.R {
+		s.eng.lastVoting = rv.VRV.Clone()
+	}
+}
+
+// offer makes the view the mirror would send now ready on the channel (a sender blocked in the send, as the
+// mirror kernel's select is); a newer view replaces an offered one that was not taken.
+func (b *bareEnv) offer(s *sys) {
+	var rv tmeil.StateMachineRoundView
+	switch {
+	case b.explicit != nil:
+		rv = *b.explicit
+	case b.dirty:
+		v, ok := b.curView(s)
+		if !ok {
+			b.dirty = false
+			return
+		}
+		rv = v
+	default:
+		return
+	}
+	if b.sending {
+		close(b.cancelSend)
+		synctest.Wait()
+	}
+	wasExplicit := b.explicit != nil
+	b.explicit = nil
+	if !wasExplicit {
+		b.dirty = false
+	}
+	b.sending = true
+	cancel := make(chan struct{})
+	b.cancelSend = cancel
+	go func() {
+		select {
+		case b.viewCh <- rv:
+			b.sending = false
+			b.delivered(s, rv)
+		case <-cancel:
+			b.sending = false
+		}
+	}()
+	synctest.Wait()
+}
+
+// pump releases the gated kernel pass by pass until a pass finds nothing ready or the kernel waits elsewhere (for an
+// entrance response, a strategy answer).
+func (b *bareEnv) pump(s *sys) {
+	if !b.gated {
+		b.drain(s)
+		return
+	}
+	for i := 0; i < 64; i++ {
+		b.drain(s)
+		if b.sm == nil || !b.atGate {
+			return
+		}
+		b.offer(s)
+		b.lastPicked = -1
+		select {
+		case b.gate <- struct{}{}:
+		default:
+			return
+		}
+		b.passes++
+		synctest.Wait()
+		if b.lastPicked < 0 {
+			return
+		}
 	}
 }
 
@@ -229,6 +382,15 @@ func (b *bareEnv) curView(s *sys) (tmeil.StateMachineRoundView, bool) {
 					committed = true
 				}
 			}
+		}
+	}
+	// Nor does it signal a later round together with a view that itself ends the current round (nil quorum or every
+	// validator's precommit present): a mirror that saw that has moved its own voting round on before, so later-round
+	// votes are votes of its voting round, not grounds for a jump.
+	if cv := b.views[[2]uint64{b.cur.H, uint64(b.cur.R)}]; cv != nil {
+		tot := w.total(b.cur.H)
+		if cv.VoteSummary.PrecommitBlockPower[""] >= majority(tot) || cv.VoteSummary.TotalPrecommitPower == tot {
+			committed = true
 		}
 	}
 	for r := b.cur.R + 1; r < b.cur.R+4 && !committed; r++ {
@@ -551,7 +713,7 @@ func runBare(events []string, props []string, args map[string]string) (res vx.Re
 		res.HarnessErr = "fresh state machine failed to start: " + n.startErr
 		return
 	}
-	b.drain(s)
+	b.pump(s)
 	mon.check()
 	for i, ev := range events {
 		s.step, n.step = i, i
@@ -564,6 +726,18 @@ func runBare(events []string, props []string, args map[string]string) (res vx.Re
 				o.violate("C10", "restart-failed:"+normRestartErr(result), result)
 				break
 			}
+		} else if strings.HasPrefix(ev, "BATCH:") {
+			// BATCH:<n>:<case>: the next n events reach the state machine's inputs before its kernel looks at any of
+			// them; it then takes the named select case first if that one is ready.
+			p := strings.Split(ev, ":")
+			cnt, _ := strconv.Atoi(p[1])
+			pc, _ := strconv.Atoi(p[2])
+			result = "n/a:not-gated"
+			if b.gated && b.batch == 0 && cnt > 1 {
+				b.batch, b.pref = cnt+1, pc
+				result = "batching"
+			}
+			s.results = append(s.results, fmt.Sprintf("%3d %-28s %s", i, ev, result))
 		} else if r, ok := b.apply(s, ev); ok {
 			result = r
 			s.results = append(s.results, fmt.Sprintf("%3d %-28s %s", i, ev, result))
@@ -571,14 +745,23 @@ func runBare(events []string, props []string, args map[string]string) (res vx.Re
 			a := s.apply(ev)
 			result = a.result
 		}
-		b.drain(s)
-		mon.check()
+		if b.batch > 0 {
+			b.batch--
+		}
+		if b.batch == 0 {
+			b.pump(s)
+			mon.check()
+		} else {
+			// Inputs are piling up in front of a held kernel: not a point at which the monitors' "at rest" clauses apply.
+			b.drain(s)
+		}
 		res.Keys = append(res.Keys, vx.ShortHash(b.key(s)+mon.key())[:12])
 	}
 	s.step = len(events)
 	n.step = s.step
 	s.curEvent = "final"
-	b.drain(s)
+	b.batch = 0
+	b.pump(s)
 	if os.Getenv("VERIF_STACK") != "" {
 		buf := make([]byte, 1<<20)
 		buf = buf[:runtime.Stack(buf, true)]
@@ -597,6 +780,7 @@ func runBare(events []string, props []string, args map[string]string) (res vx.Re
 	res.NonTrivial = mon.signed > 0
 	res.Count("events_applied", int64(len(events)))
 	res.Count("views_sent_to_state_machine", int64(b.sent))
+	res.Count("state_machine_select_passes", int64(b.passes))
 	if args["results"] == "1" {
 		res.Next = s.results
 		for _, e := range n.trace {
